@@ -159,7 +159,7 @@ func (pc *provCtx) origins(v ssa.Value, at ssa.Instruction, depth int, seen map[
 
 func (pc *provCtx) describe(v ssa.Value) string {
 	if fv := pc.fieldOfValue(v); fv != nil {
-		return "field " + fv.Name()
+		return "field " + objName(fv)
 	}
 	return v.String()
 }
@@ -415,7 +415,7 @@ func (pc *provCtx) elemsOf(v ssa.Value, at ssa.Instruction, depth int, seen map[
 		}
 		return dedupOrigins(out)
 	case *ssa.Call:
-		if b, ok := x.Call.Value.(*ssa.Builtin); ok && b.Name() == "append" {
+		if b, ok := x.Call.Value.(*ssa.Builtin); ok && objName(b) == "append" {
 			var out []origin
 			for _, a := range x.Call.Args {
 				out = append(out, pc.elemsOf(a, x, depth+1, seen)...)
@@ -459,7 +459,7 @@ func (pc *provCtx) elemsOf(v ssa.Value, at ssa.Instruction, depth int, seen map[
 // keysOf: origins of the keys of a map value (only field maps are resolved).
 func (pc *provCtx) keysOf(v ssa.Value, at ssa.Instruction, depth int, seen map[ssa.Value]bool) []origin {
 	if fv := pc.fieldOfValue(v); fv != nil {
-		return []origin{{Kind: "mapkey", Field: fv, Detail: "key of field " + fv.Name(), Pos: v.Pos()}}
+		return []origin{{Kind: "mapkey", Field: fv, Detail: "key of field " + objName(fv), Pos: v.Pos()}}
 	}
 	return []origin{{Kind: "other", Detail: "map key of " + v.String(), Pos: v.Pos()}}
 }
